@@ -3,12 +3,8 @@ package main
 // Result oracles for finished runs (the C01-C04 predicates, stated independently of the model).
 
 import (
-	"verif/harness/internal/vc"
+	"github.com/bnb-chain/tss-lib/v2/common"
 )
 
-func checkEdDSAKeygenResult(r *vc.Run, rc *runCtx, cfg, schedName string)  {}
-func checkEdDSASignResult(r *vc.Run, rc *runCtx, cfg, schedName string)    {}
-func checkEdDSAReshareResult(r *vc.Run, rc *runCtx, cfg, schedName string) {}
-func checkECDSASignResult(r *vc.Run, rc *runCtx, cfg, schedName string)    {}
-func checkECDSAKeygenResult(r *vc.Run, rc *runCtx, cfg, schedName string)  {}
-func checkECDSAReshareResult(r *vc.Run, rc *runCtx, cfg, schedName string) {}
+type commonSig = common.SignatureData
+
